@@ -79,7 +79,7 @@ TRace == /\ Trace[l].t = "race"
          /\ l' = l + 1 /\ UNCHANGED <<A, pend, rd, pers, ended>>
 
 TCrash == /\ Trace[l].t = "crash"
-          /\ CrashExplained(pers, Trace[l].kind, Trace[l].site)
+          /\ CrashExplained(pers, Trace[l].kind, Trace[l].site, Trace[l].frames)
           /\ used' = used \cup {IF Trace[l].kind = "panic" THEN "D-C19-lfu-oversize-panic" ELSE "D-C19-inmem-map-race"}
           /\ pend' = [c \in Clients |-> NoPend]       \* the process is gone
           /\ l' = l + 1 /\ UNCHANGED <<A, rd, pers, ended>>
